@@ -238,6 +238,28 @@ def unchanged (new : List (NewEntry σ)) (e : OldEntry σ) : Bool :=
   | some d, some n => d == n.digest
   | _, _ => false
 
+/-- "Invalidate first": before a changed SCM directory is switched or moved its stored digest is set
+to `False` and the state is persisted (a kill in between must not leave a trusted entry) -/
+def invalidate (e : OldEntry σ) (st : St σ κ) : St σ κ :=
+  if e.digest.isSome then
+    persist { st with old := st.old.map (fun o => if o.dir == e.dir then { o with digest := none } else o) }
+  else st
+
+/-- a changed SCM directory: switch inline, or move to the attic, or just drop the state entry -/
+def changedStep (sem : ScmSem σ κ) (atticEnabled : Bool) (new : List (NewEntry σ))
+    (st : St σ κ) (tr : List (Comps × Nat)) (e : OldEntry σ) : Except Err (St σ κ × List (Comps × Nat)) :=
+  let p := normComps e.dir
+  let sw := trySwitch sem new e p st
+  if sw.2 then
+    match findNew new e.dir with
+    | some n => .ok (persist { sw.1 with old := setOld sw.1.old n }, tr)
+    | none => .ok (sw.1, tr)
+  else if existsWs sw.1 p then
+    if !atticEnabled then .error (.atticDisabled e.dir)
+    else .ok (dropOld e.dir (moveAway e p sw.1), trackerAdd tr p sw.1.nextAttic)
+  else
+    .ok (dropOld e.dir sw.1, tr)
+
 /-- one iteration of the switch-or-attic loop for the (snapshot) entry `e` -/
 def loopStep (sem : ScmSem σ κ) (atticEnabled : Bool) (new : List (NewEntry σ))
     (st : St σ κ) (tr : List (Comps × Nat)) (e : OldEntry σ) : Except Err (St σ κ × List (Comps × Nat)) :=
@@ -253,17 +275,7 @@ def loopStep (sem : ScmSem σ κ) (atticEnabled : Bool) (new : List (NewEntry σ
     .ok (dropOld e.dir st1, tr)
   | none =>
     if unchanged new e then .ok (st, tr)        -- digest unchanged: keep
-    else
-      let sw := trySwitch sem new e p st
-      if sw.2 then
-        match findNew new e.dir with
-        | some n => .ok (persist { sw.1 with old := setOld sw.1.old n }, tr)
-        | none => .ok (sw.1, tr)
-      else if existsWs sw.1 p then
-        if !atticEnabled then .error (.atticDisabled e.dir)
-        else .ok (dropOld e.dir (moveAway e p sw.1), trackerAdd tr p sw.1.nextAttic)
-      else
-        .ok (dropOld e.dir sw.1, tr)
+    else changedStep sem atticEnabled new (invalidate e st) tr e
 
 /-- the whole loop over the snapshot; on error the state reached so far is returned -/
 def loopAll (sem : ScmSem σ κ) (atticEnabled : Bool) (new : List (NewEntry σ)) :
@@ -271,8 +283,8 @@ def loopAll (sem : ScmSem σ κ) (atticEnabled : Bool) (new : List (NewEntry σ)
   | [], st, _ => (st, none)
   | e :: rest, st, tr =>
     match loopStep sem atticEnabled new st tr e with
-    -- the only error (attic disabled) is raised after the switch attempt, whose effects stay
-    | .error x => ((trySwitch sem new e (normComps e.dir) st).1, some x)
+    -- the only error (attic disabled) is raised after the invalidation and the switch attempt
+    | .error x => ((trySwitch sem new e (normComps e.dir) (invalidate e st)).1, some x)
     | .ok (st', tr') => loopAll sem atticEnabled new rest st' tr'
 
 /-- collision check for new checkouts: first colliding directory in sorted order -/
